@@ -112,7 +112,8 @@ where
         writeln!(writer, "pub struct {rust_name} {{")?;
         for (part_name, header) in &soap_operation.headers {
             let field_name = as_field_name(part_name);
-            let rust_type = header.rust_type.xml_name().expect("xml_name not found");
+            // the struct generated for the header element carries the PascalCase form of its name
+            let rust_type = xml_name_to_rust_name(header.rust_type.xml_name().expect("xml_name not found"));
 
             if let Some(namespace) = header.in_namespace.as_ref() {
                 let abbreviation = namespace.abbreviation.as_str();
@@ -148,8 +149,10 @@ where
         write_check_restrictions_footer(writer)?;
     }
 
-    let body = soap_operation.body.rust_type.xml_name().expect("xml_name not found");
-    let body_field_name = as_field_name(&to_snake_case(body));
+    let body_xml_name = soap_operation.body.rust_type.xml_name().expect("xml_name not found");
+    // the struct generated for the body element carries the PascalCase form of its name
+    let body = xml_name_to_rust_name(body_xml_name);
+    let body_field_name = as_field_name(&to_snake_case(body_xml_name));
     let xml_name = soap_operation.body.rust_type.xml_name().expect("xml_name not found");
 
     writeln!(writer, "#[derive(Debug, Default, YaSerialize, YaDeserialize)]")?;
